@@ -100,7 +100,9 @@ extern struct bg_adj *bg_cur_adj;
    ((bg_size)(it).cur < (it).bound && (!BG_IS_P((it).cur) || (it).r.nP > 0) && \
     (!BG_IS_Q((it).cur) || (it).r.nQ > 0) &&                                  \
     (!((bg_size)(it).cur >= (it).idx) || (it).r.up > 0) &&                    \
-    (!((bg_size)(it).cur < (it).idx) || (it).r.len > (it).r.up)))
+    (!((bg_size)(it).cur < (it).idx) || (it).r.len > (it).r.up) &&            \
+    (it).r.nP + (it).r.nQ <= (it).r.len &&                                    \
+    (!BG_IS_O((it).cur) || (it).r.len > (it).r.nP + (it).r.nQ)))
 typedef struct bg_adj {
   bg_size n;            /* vector::size()                                     */
   /* rows G_P and G_Q (rowQ empty when G_P == G_Q).  Separate objects, not
